@@ -1,4 +1,285 @@
-/-! Line-protocol driver for property C04 (stub until the model exists). -/
+import CprocVerif.Model.Eval
+import CprocVerif.Spec.CInt
+
+/-! Line-protocol driver for property C04 (model of `eval.c` + literal typing, and the C11 spec).
+
+One output line per input line.  `<u64>` = unsigned decimal, `<int>` = signed decimal.
+Integer types are `<bits> <signed 0|1>` with bits ∈ {1 (_Bool), 8, 16, 32, 64}.
+
+Model (`Model/Eval.lean`):
+* `bin <op> <bits> <s> <l u64> <r u64>`  → `<u64>` | `unfolded` | `hostub`
+       (`op` ∈ mul div mod add sub shl shr band bor bxor lt gt le ge eq ne; the operands have the
+        type `<bits> <s>`; the result type is `int` for comparisons, the operand type otherwise)
+* `un <neg|bnot|lnot|plus> <bits> <s> <u64>` → `<u64>`   (through the rewrites of `unaryexpr`)
+* `cast <fb> <fs> <tb> <ts> <u64>`       → `<u64>`
+* `castif <fb> <fs> <fsize> <u64>`       → bits of the double (int → float)
+* `castfi <tb> <ts> <bits u64>`          → `<u64>` | `error`      (double → int)
+* `castff <fsize> <bits>`                → bits                   (float → float)
+* `fbin <op> <fsize> <lbits> <rbits>`    → bits, or 0/1 for comparisons
+* `lit <text>`                           → `<value> <typename>` | `floating` | `error`
+* `expr <sexpr>` / `ice <allowneg 0|1> <sexpr>` → evaluated tree / `<u64>` | `error`
+Spec (`Spec/CInt.lean`):
+* `spec bin <op> <bits> <s> <a int> <b int>` → `<int>` | `ub`
+* `spec un <op> <bits> <s> <a int>`       → `<int>` | `ub`
+* `spec conv <tb> <ts> <v int>`           → `<int>`
+* `spec repr <bits> <s> <v int>`          → `<u64>`
+* `spec lit <u 0|1> <rank 0|1|2> <decimal 0|1> <v>` → typename | `none`
+anything else → `bad-op`
+-/
+
+open CprocVerif CprocVerif.CInt CprocVerif.Eval
+
+def fops : FloatOps Float where
+  ofBits n := Float.ofBits (UInt64.ofNat n)
+  bits f := f.toBits.toNat
+  add := (· + ·)
+  sub := (· - ·)
+  mul := (· * ·)
+  div := (· / ·)
+  neg := Float.neg
+  lt a b := a < b
+  le a b := a ≤ b
+  eq a b := a == b
+  ofInt i := if i < 0 then (Int64.ofInt i).toFloat else (UInt64.ofNat i.toNat).toFloat
+  toInt f := if f < 0 then f.toInt64.toInt else (f.toUInt64.toNat : Int)
+  toF32 f := f.toFloat32.toFloat
+
+def parseU64 (s : String) : Option Nat :=
+  match s.toNat? with
+  | some n => if n < 2 ^ 64 then some n else none
+  | none => none
+
+def parseBool (s : String) : Option Bool :=
+  if s == "1" then some true else if s == "0" then some false else none
+
+def parseBinOp : String → Option BinOp
+  | "mul" => some .mul | "div" => some .div | "mod" => some .mod | "add" => some .add
+  | "sub" => some .sub | "shl" => some .shl | "shr" => some .shr | "band" => some .band
+  | "bor" => some .bor | "bxor" => some .bxor | "lt" => some .lt | "gt" => some .gt
+  | "le" => some .le | "ge" => some .ge | "eq" => some .eq | "ne" => some .ne
+  | "lor" => some .lor | "land" => some .land
+  | _ => none
+
+def parseUnOp : String → Option UnOp
+  | "neg" => some .neg | "bnot" => some .bnot | "lnot" => some .lnot | "plus" => some .plus
+  | _ => none
+
+def parseIntTy (b s : String) : Option IntTy := do
+  let bits ← b.toNat?
+  let sg ← parseBool s
+  if bits = 1 ∨ bits = 8 ∨ bits = 16 ∨ bits = 32 ∨ bits = 64 then some ⟨bits, sg⟩ else none
+
+def intTy : Ty := .int 4 true
+
+def showFold : Fold → String
+  | .folded u => toString u
+  | .unfolded => "unfolded"
+  | .hostUB => "hostub"
+
+def showOptInt : Option Int → String
+  | some v => toString v
+  | none => "ub"
+
+/-! S-expressions for `expr` -/
+
+def tokenize (s : String) : List String :=
+  ((s.replace "(" " ( ").replace ")" " ) ").splitOn " " |>.filter (· ≠ "")
+
+def parseTy : String → Option Ty
+  | "b1" => some (.int 1 false)
+  | "i8" => some (.int 1 true) | "u8" => some (.int 1 false)
+  | "i16" => some (.int 2 true) | "u16" => some (.int 2 false)
+  | "i32" => some (.int 4 true) | "u32" => some (.int 4 false)
+  | "i64" => some (.int 8 true) | "u64" => some (.int 8 false)
+  | "f32" => some (.flt 4) | "f64" => some (.flt 8) | "f128" => some (.flt 16)
+  | "ptr" => some .ptr | "void" => some .other
+  | _ => none
+
+def showTy : Ty → String
+  | .int sz sg => (if sg then "i" else "u") ++ toString (sz * 8)
+  | .flt sz => "f" ++ toString (sz * 8)
+  | .ptr => "ptr"
+  | .other => "void"
+
+def showBinOp : BinOp → String
+  | .mul => "mul" | .div => "div" | .mod => "mod" | .add => "add" | .sub => "sub" | .shl => "shl"
+  | .shr => "shr" | .band => "band" | .bor => "bor" | .bxor => "bxor" | .lt => "lt" | .gt => "gt"
+  | .le => "le" | .ge => "ge" | .eq => "eq" | .ne => "ne" | .lor => "lor" | .land => "land"
+
+/-- fuel-bounded recursive-descent parser; `cond` applies the parser-side shortcut of `condexpr`. -/
+def parseExpr : Nat → List String → Option (Expr × List String)
+  | 0, _ => none
+  | fuel + 1, toks =>
+    match toks with
+    | "(" :: "c" :: t :: u :: ")" :: rest => do some (.const (← parseTy t) (← parseU64 u), rest)
+    | "(" :: "e" :: t :: u :: ")" :: rest => do some (.enumc (← parseTy t) (← parseU64 u), rest)
+    | "(" :: "o" :: t :: n :: ")" :: rest => do some (.obj (← parseTy t) n, rest)
+    | "(" :: "s" :: i :: ")" :: rest => do some (.str .other (← i.toNat?), rest)
+    | "(" :: "op" :: t :: i :: ")" :: rest => do some (.opaque (← parseTy t) (← i.toNat?), rest)
+    | "(" :: "cond" :: t :: rest => do
+      let ty ← parseTy t
+      let (c, r1) ← parseExpr fuel rest
+      let (a, r2) ← parseExpr fuel r1
+      let (b, r3) ← parseExpr fuel r2
+      match r3 with
+      | ")" :: r4 => some (condexpr fops c a b ty, r4)
+      | _ => none
+    | "(" :: "cast" :: t :: rest => do
+      let ty ← parseTy t
+      let (a, r1) ← parseExpr fuel rest
+      match r1 with
+      | ")" :: r2 => some (.cast ty a, r2)
+      | _ => none
+    | "(" :: "neg" :: t :: rest => do
+      let ty ← parseTy t
+      let (a, r1) ← parseExpr fuel rest
+      match r1 with
+      | ")" :: r2 => some (.unary .neg ty a, r2)
+      | _ => none
+    | "(" :: "addr" :: t :: rest => do
+      let ty ← parseTy t
+      let (a, r1) ← parseExpr fuel rest
+      match r1 with
+      | ")" :: r2 => some (.unary .addr ty a, r2)
+      | _ => none
+    | "(" :: "deref" :: t :: rest => do
+      let ty ← parseTy t
+      let (a, r1) ← parseExpr fuel rest
+      match r1 with
+      | ")" :: r2 => some (.unary .deref ty a, r2)
+      | _ => none
+    | "(" :: o :: t :: rest => do
+      let op ← parseBinOp o
+      let ty ← parseTy t
+      let (a, r1) ← parseExpr fuel rest
+      let (b, r2) ← parseExpr fuel r1
+      match r2 with
+      | ")" :: r3 => some (.binary op ty a b, r3)
+      | _ => none
+    | _ => none
+
+def showExpr : Expr → String
+  | .const t u => "(c " ++ showTy t ++ " " ++ toString u ++ ")"
+  | .enumc t u => "(e " ++ showTy t ++ " " ++ toString u ++ ")"
+  | .obj t n => "(o " ++ showTy t ++ " " ++ n ++ ")"
+  | .str _ i => "(s " ++ toString i ++ ")"
+  | .compound t _ i => "(compound " ++ showTy t ++ " " ++ toString i ++ ")"
+  | .unary .addr t b => "(addr " ++ showTy t ++ " " ++ showExpr b ++ ")"
+  | .unary .deref t b => "(deref " ++ showTy t ++ " " ++ showExpr b ++ ")"
+  | .unary .neg t b => "(neg " ++ showTy t ++ " " ++ showExpr b ++ ")"
+  | .cast t b => "(cast " ++ showTy t ++ " " ++ showExpr b ++ ")"
+  | .binary op t l r => "(" ++ showBinOp op ++ " " ++ showTy t ++ " " ++ showExpr l ++ " " ++ showExpr r ++ ")"
+  | .cond t c a b => "(cond " ++ showTy t ++ " " ++ showExpr c ++ " " ++ showExpr a ++ " " ++ showExpr b ++ ")"
+  | .opaque t i => "(op " ++ showTy t ++ " " ++ toString i ++ ")"
+  | .error => "error"
+  | .bad => "bad"
+
+def allOnes : Nat := 2 ^ 64 - 1
+
+/-- unary operators as `unaryexpr` compiles them. -/
+def modelUn (op : UnOp) (t : IntTy) (u : Nat) : String :=
+  let ty := tyOf t
+  match op with
+  | .neg => toString (unaryNeg fops ty ty u)
+  | .bnot => showFold (foldBin fops .bxor ty u allOnes ty)      -- `e ^ mkconstexpr(type, -1)`
+  | .lnot => showFold (foldBin fops .eq ty u 0 intTy)            -- `e == 0`
+  | .plus => toString u
+
+def step (line : String) : String :=
+  match line.trimAscii.toString.splitOn " " with
+  | ["bin", o, b, s, l, r] =>
+    match parseBinOp o, parseIntTy b s, parseU64 l, parseU64 r with
+    | some op, some t, some l, some r =>
+      showFold (foldBin fops op (tyOf t) l r (tyOf (binResTy op t)))
+    | _, _, _, _ => "bad-op"
+  | ["un", o, b, s, u] =>
+    match parseUnOp o, parseIntTy b s, parseU64 u with
+    | some op, some t, some u => modelUn op t u
+    | _, _, _ => "bad-op"
+  | ["cast", fb, fs, tb, ts, u] =>
+    match parseIntTy fb fs, parseIntTy tb ts, parseU64 u with
+    | some f, some t, some u =>
+      match castConst fops (tyOf f) (tyOf t) u with
+      | .const _ v => toString v
+      | _ => "error"
+    | _, _, _ => "bad-op"
+  | ["castif", fb, fs, sz, u] =>
+    match parseIntTy fb fs, sz.toNat?, parseU64 u with
+    | some f, some sz, some u =>
+      match castConst fops (tyOf f) (.flt sz) u with
+      | .const _ v => toString v
+      | _ => "error"
+    | _, _, _ => "bad-op"
+  | ["castfi", tb, ts, u] =>
+    match parseIntTy tb ts, parseU64 u with
+    | some t, some u =>
+      match castConst fops (.flt 8) (tyOf t) u with
+      | .const _ v => toString v
+      | _ => "error"
+    | _, _ => "bad-op"
+  | ["castff", sz, u] =>
+    match sz.toNat?, parseU64 u with
+    | some sz, some u =>
+      match castConst fops (.flt 8) (.flt sz) u with
+      | .const _ v => toString v
+      | _ => "error"
+    | _, _ => "bad-op"
+  | ["fbin", o, sz, l, r] =>
+    match parseBinOp o, sz.toNat?, parseU64 l, parseU64 r with
+    | some op, some sz, some l, some r =>
+      showFold (foldBin fops op (.flt sz) l r (if op.isCmp then intTy else .flt sz))
+    | _, _, _, _ => "bad-op"
+  | ["lit", text] =>
+    match parseNumber text.toList with
+    | .int v t => toString v ++ " " ++ t.name
+    | .floating => "floating"
+    | .error => "error"
+  | "expr" :: rest =>
+    match parseExpr 4000 (tokenize (" ".intercalate rest)) with
+    | some (e, []) => showExpr (eval fops e)
+    | _ => "bad-op"
+  | "ice" :: a :: rest =>
+    match parseBool a, parseExpr 4000 (tokenize (" ".intercalate rest)) with
+    | some an, some (e, []) =>
+      match intconstexpr fops e an with
+      | some u => toString u
+      | none => "error"
+    | _, _ => "bad-op"
+  | ["spec", "bin", o, b, s, x, y] =>
+    match parseBinOp o, parseIntTy b s, x.toInt?, y.toInt? with
+    | some op, some t, some x, some y => showOptInt (CInt.bin op t x y)
+    | _, _, _, _ => "bad-op"
+  | ["spec", "un", o, b, s, x] =>
+    match parseUnOp o, parseIntTy b s, x.toInt? with
+    | some op, some t, some x => showOptInt (CInt.un op t x)
+    | _, _, _ => "bad-op"
+  | ["spec", "conv", b, s, x] =>
+    match parseIntTy b s, x.toInt? with
+    | some t, some x => toString (CInt.wrap t x)
+    | _, _ => "bad-op"
+  | ["spec", "repr", b, s, x] =>
+    match parseIntTy b s, x.toInt? with
+    | some t, some x => toString (CInt.repr64 t x)
+    | _, _ => "bad-op"
+  | ["spec", "lit", u, rk, d, v] =>
+    match parseBool u, rk.toNat?, parseBool d, v.toNat? with
+    | some u, some rk, some d, some v =>
+      match CInt.litType ⟨u, rk⟩ d v with
+      | some t => t.name
+      | none => "none"
+    | _, _, _, _ => "bad-op"
+  | _ => "bad-op"
+
+partial def loop (stdin stdout : IO.FS.Stream) : IO Unit := do
+  let line ← stdin.getLine
+  if line.isEmpty then
+    return ()
+  stdout.putStrLn (step line)
+  loop stdin stdout
+
 def main (_args : List String) : IO UInt32 := do
-  IO.eprintln "drv_c04: no model yet"
-  return 2
+  let stdin ← IO.getStdin
+  let stdout ← IO.getStdout
+  loop stdin stdout
+  stdout.flush
+  return 0
